@@ -42,6 +42,7 @@ VH_AREA(cdem) {
             st.hit("cases.random_annotated");
         }
         auto relab = make_relabel(rng, nq, rng.chance(0.3));
+        if (a.replay.empty()) { Rng ru = rng.sub(777); if (ru.chance(0.2)) { c = unfused_object(c); st.hit("cases.unfused_object"); } }
         Circuit big = a.replay.empty() ? relabel(c, relab) : c;
         Circuit comp = compact_circuit(big);
         out_case(k, esc_line(big.str()));
